@@ -19,6 +19,69 @@ DOC_TAGS = {'int', 'long', 'decimal', 'datetime'}
 DOC_PROCS = {'PAN', 'PAN-PREFIX', 'ICC', 'PDS', 'DE43'}
 
 
+
+def decoder_iterations(du, dfi):
+    """Per generic iteration of the decoder's element loop: the element number handed on / looked up, the position of
+    the tested bitmap flag in the unpacked bit list, whether the flag was set and whether the element was parsed."""
+    out = []
+    uf = du.units.get('field')
+    for p in du.loads.inv:
+        for first, last, s0, s1, head in iterations(p, func=dfi.short):
+            if not isinstance(head.node, ast.For):
+                continue
+            it = p.interp
+            st = p.store
+            calls = [e for e in p.events if e.kind == 'unit-call' and uf is not None and e.data['unit'] == uf.name and first < e.seq < last]
+            fi_ev = [e for e in p.events if e.kind == 'for-iter' and e.node is head.node]
+            li = [e for e in p.events if e.kind == 'loop-iter' and e.node is head.node and first <= e.seq < last]
+            itv = fi_ev[-1].data['iterable'] if fi_ev else None
+            elem = li[-1].data.get('elem') if li else None
+            rec = {'path': p, 'parsed': bool(calls), 'bit': None, 'pos': None, 'flag': None, 'k': None, 'node': head.node}
+            # the flag: a truth fact on an element of the bit list inside this iteration
+            for kind, truth, data in p.facts:
+                if kind != 'truth':
+                    continue
+                sym = data['sym']
+                o = getattr(sym, 'origin', None)
+                if isinstance(o, tuple) and o and o[0] == 'item' and isinstance(o[1], ListV):
+                    lst, idx = o[1], Lin.of(o[2])
+                    par = getattr(lst, 'parent', None)
+                    if par is not None and par[1] is not None:
+                        idx = idx + Lin.of(par[1])
+                        lst = par[0]
+                    # only the test that depends on the loop variable identifies the element flag
+                    dep = isinstance(elem, IntV) and any(sy in st.canon(idx).syms() for sy in st.canon(elem.lin).syms())
+                    if dep:
+                        rec.update(flag=truth, pos=idx, root=lst)
+                    else:
+                        rec.setdefault('other_tests', []).append((idx, truth))
+                elif isinstance(itv, IterV) and isinstance(itv.elem, TupleV) and len(itv.elem.items) == 2 and sym is itv.elem.items[1] \
+                        and isinstance(elem, TupleV) and isinstance(elem.items[0], IntV):
+                    pos = elem.items[0].lin - getattr(itv, 'enum_start', Lin.const(0))
+                    lst = itv.src
+                    par = getattr(lst, 'parent', None)
+                    if par is not None:
+                        if par[1] is not None:
+                            pos = pos + Lin.of(par[1])
+                        lst = par[0]
+                    rec.update(flag=truth, pos=pos, root=lst)
+            if isinstance(elem, IntV):
+                rec['bit'] = elem
+            elif isinstance(elem, TupleV) and elem.items and isinstance(elem.items[0], IntV):
+                rec['bit'] = elem.items[0]
+            if calls and isinstance(calls[-1].data['args'][0], IntV):
+                rec['bit'] = calls[-1].data['args'][0]
+            root = rec.get('root')
+            if isinstance(root, ListV):
+                parts = getattr(root, 'parts', None)
+                if parts and parts[0][0] == 'items':
+                    rec['k'] = len(parts[0][1])
+                elif root.items is not None or getattr(root, 'prev_items', None) is not None:
+                    rec['k'] = 0
+            out.append(rec)
+    return out
+
+
 def simple(ob, ok, good, bad, witness=None, undecided=None):
     if undecided:
         ob.verdict, ob.detail = UNDECIDED, undecided
@@ -64,10 +127,18 @@ def check(prog, res, tier):
                     lo, hi = p.store.canon(Lin.of(r.lo)), p.store.canon(Lin.of(r.hi))
                     out.add((lo.c if lo.is_const() else str(lo), hi.c if hi.is_const() else str(hi)))
         return out
-    re_, rd = ranges(runs_e, efi.short), ranges(du.loads, dfi.short)
+    re_ = ranges(runs_e, efi.short)
+    dits = decoder_iterations(du, dfi)
+    lo_s, hi_s = set(), set()
+    for r in dits:
+        if r['bit'] is not None:
+            lo, hi = r['path'].store.bounds(r['bit'].lin)
+            lo_s.add(lo)
+            hi_s.add(hi)
+    rd = {(min(lo_s), max(hi_s) + 1)} if lo_s and None not in lo_s and None not in hi_s else set()
     ob = Ob('C01.a', 'encoder and decoder iterate the same elements 2..127', func_where(dfi), 'for bit in range(2, 128)')
     simple(ob, re_ == rd == {(2, 128)}, f'both loops range over {sorted(re_)}',
-           f'encoder visits {sorted(re_)}, decoder visits {sorted(rd)} (expected range(2, 128) on both sides)',
+           f'encoder visits {sorted(re_)}, decoder visits {sorted(rd)} (expected elements 2..127, i.e. range(2, 128), on both sides)',
            {'encoder': str(sorted(re_)), 'decoder': str(sorted(rd))},
            undecided=None if re_ and rd else 'element loops not recognised')
     res.add(ob)
@@ -84,24 +155,14 @@ def check(prog, res, tier):
                     d = p.store.canon(e.data['key'].lin - bit.lin)
                     enc_off.add(d.c if d.is_const() else str(d))
     dec_off = set()
-    for p in du.loads.inv:
-        for first, last, s0, s1, head in iterations(p, func=dfi.short):
-            li = [e for e in p.events if e.kind == 'loop-iter' and first <= e.seq < last and e.node is head.node]
-            bit = li[-1].data.get('elem') if li else None
-            for e in p.events:
-                if first < e.seq < last and e.kind == 'list-index' and e.func == dfi.short and isinstance(bit, IntV):
-                    lst = e.data['obj']
-                    parts = getattr(lst, 'parts', None)
-                    k = None
-                    if parts and parts[0][0] == 'items':
-                        k = len(parts[0][1])
-                    elif lst.items is not None:
-                        k = 0
-                    if k is None:
-                        dec_off.add('unknown list shape')
-                        continue
-                    d = p.store.canon(e.data['index'] - bit.lin - k)
-                    dec_off.add(d.c if d.is_const() else str(d))
+    for r in dits:
+        if r['pos'] is None or r['bit'] is None:
+            continue
+        if r['k'] is None:
+            dec_off.add('unknown list shape')
+            continue
+        d = r['path'].store.canon(r['pos'] - r['bit'].lin - r['k'])
+        dec_off.add(d.c if d.is_const() else str(d))
     ob = Ob('C01.b', 'element n uses the same bitmap position when written (index n-1) and when read (prefix + tolist index n)',
             func_where(dfi), 'bitmap_values[bit - 1] = True  vs  bitmap_list[bit]')
     simple(ob, enc_off == {-1} and dec_off == {-1},
